@@ -43,7 +43,7 @@ def run(plan):
     recs = [(cid, bytes.fromhex(v)) for cid, v in plan["records"]]
     splits = plan["splits"]
 
-    async def query(pages):
+    async def query(pages, late_dup=False):
         dev.caps_pages = pages
         ac = w.ns.AC(ip=HOST, port=PORT, device_id=s.device_id)
         if not hasattr(ac, "_update_capabilities"):
@@ -62,8 +62,24 @@ def run(plan):
         o = await capture(w, ac.get_capabilities())
         if o.kind != "ok":
             return ("raised " + o.exc_type, None, None)
-        snap = {a: ([int(x) for x in getattr(ac, a)] if isinstance(getattr(ac, a), list) else getattr(ac, a))
-                for a in CAPS_ATTRS}
+
+        def snap_now():
+            return {a: ([int(x) for x in getattr(ac, a)] if isinstance(getattr(ac, a), list) else getattr(ac, a))
+                    for a in CAPS_ATTRS}
+        snap = snap_now()
+        if late_dup and len(pages) > 1:
+            # a late duplicate of the second page turns up in a later state exchange: what was learned stays
+            from refmodel import acmodel
+            body = acmodel.build_b5(pages[1][0], pages[1][1])
+            dev.script = [{"pre": ["unsol_raw:" + body.hex()]}]
+            await capture(w, ac.refresh())
+            dev.script = []
+            await capture(w, ac.refresh())
+            snap2 = snap_now()
+            if snap2 != snap:
+                diff = {a: (snap[a], snap2[a]) for a in CAPS_ATTRS if snap[a] != snap2[a]}
+                return ("changed its capabilities when a duplicate of the additional page arrived later", seen[-1] if seen else None, diff)
+            w.fire("late_duplicate_of_additional_page")
         return ("ok", seen[-1] if seen else None, snap)
 
     async def main(w):
@@ -89,9 +105,9 @@ def run(plan):
             return
         for k in splits:
             k = k % (len(recs) + 1)
-            st, raw_k, snap_k = await query([(recs[:k], True), (recs[k:], False)])
+            st, raw_k, snap_k = await query([(recs[:k], True), (recs[k:], False)], late_dup=bool(plan.get("late_dup")))
             if st != "ok":
-                res.fail(f"get_capabilities {st} on a paged list", f"split {k}")
+                res.fail(f"get_capabilities {st} on a paged list", f"split {k}: {snap_k if isinstance(snap_k, dict) and st.startswith('changed') else ''}")
                 return
             if (raw_k or {}) != (raw_full or {}):
                 diff = {kk: ((raw_full or {}).get(kk), (raw_k or {}).get(kk)) for kk in set(raw_full or {}) | set(raw_k or {})
@@ -109,7 +125,7 @@ def run(plan):
     except (SimDeadlock, SimStepLimit) as e:
         res.fail(f"liveness: {type(e).__name__}", str(e))
     res.take(w)
-    res.key = (tuple((c, v) for c, v in plan["records"]), tuple(splits), plan.get("flag"))
+    res.key = (tuple((c, v) for c, v in plan["records"]), tuple(splits), plan.get("flag"), bool(plan.get("late_dup")))
     res.nontrivial = len(recs) >= 2
     return res
 
@@ -175,7 +191,7 @@ def space(tier):
         else:
             splits = sorted({rng.randrange(0, n + 1) for _ in range(rng.randint(1, 3))})
         return {"config": {"version": rng.choice([2, 2, 3])}, "records": recs, "splits": splits,
-                "flag": rng.choice([None, False])}
+                "flag": rng.choice([None, False]), "late_dup": rng.random() < 0.3}
     sp.add("random", 2500 if tier == "quick" else 400_000, rnd)
     return sp
 
